@@ -42,6 +42,8 @@ def job(rng, strategy=None, jobs=None, fmt=None, size='small', extra=(), delays=
     if delays and jobs > 1:
         env['VERIF_WORKER_DELAY'] = str(rng.choice([0, 2, 8]))
         env['VERIF_CMD_DELAY'] = str(rng.choice([1, 5, 15]))
+        if rng.random() < 0.5:
+            env['VERIF_SLOW_ADOPT'] = str(rng.choice([5, 20, 50]))
         if rng.random() < 0.4:
             env['VERIF_SLOW_CONSUMER'] = str(rng.choice([3, 10]))
     return dict(text=text, opts=opts, cmd=cmd, env=env)
